@@ -206,3 +206,13 @@ Proof.
   - intro r. exact (ff_trigger_keys_only b b' r H).
   - exact (ff_sub_keys_only b b' R R' H).
 Qed.
+
+(* the comparison looks at the KEYS of the baseline only: neither the recorded line count nor the
+   recorded hash of any entry decides whether a result is grandfathered (seeded changes C09-m10 /
+   C11-m11 let the entry of a vanished path grandfather another file with the same hash) *)
+Lemma apply_keys_only : forall b b' rs,
+  keys b = keys b' -> apply_baseline_comparison rs b = apply_baseline_comparison rs b'.
+Proof.
+  intros b b' rs H. rewrite !apply_is_map. apply map_ext. intro r. unfold gf.
+  rewrite (contains_keys_only (key_of r) b b' H). reflexivity.
+Qed.
